@@ -26,9 +26,12 @@ def _block(t, n, labelled=True):
     return b
 
 
+FID0 = 500          # result ids of the functions of a representative module: FID0, FID0 + 1, ..
+
+
 def _function(t, nblocks, ended=False):
     f = copy.deepcopy(t["Function"])
-    f[2]["def"] = ("some", ("sym", "DEF"))
+    f[2]["def"] = ("some", dict_inst("DEF", "Function", None))        # the result id is given when the module is put together
     f[2]["blocks"] = ("list", [_block(t, 1) for _ in range(nblocks)])
     if ended:
         f[2]["end"] = ("some", ("sym", "END"))
@@ -46,6 +49,19 @@ def dict_inst(name, opcode, rid=None):
 def _builder(t, fns, sel_f, sel_b):
     m = copy.deepcopy(t["Module"])
     m[2]["functions"] = ("list", fns)
+    # as the Builder leaves them: every function definition has a result id; OpName gives function i the name "f<i>"
+    names = []
+    for i_, f_ in enumerate(fns):
+        if f_[2]["def"] != NONE and isinstance(f_[2]["def"][1], tuple) and f_[2]["def"][1][0] == "struct":
+            f_[2]["def"][1][2]["result_id"] = ("some", FID0 + i_)
+        nm_ = dict_inst("NAME%d" % i_, "Name")
+        nm_[2]["operands"] = ("list", [("enum", "Operand::IdRef", [FID0 + i_]), ("enum", "Operand::LiteralString", [("str", "f%d" % i_)])])
+        names.append(nm_)
+    other = dict_inst("NAME_OF_A_VARIABLE", "Name")
+    other[2]["operands"] = ("list", [("enum", "Operand::IdRef", [77]), ("enum", "Operand::LiteralString", [("str", "v")])])
+    member = dict_inst("MEMBER_NAME", "MemberName")
+    member[2]["operands"] = ("list", [("enum", "Operand::IdRef", [77]), ("enum", "Operand::LiteralBit32", [0]), ("enum", "Operand::LiteralString", [("str", "f0")])])
+    m[2]["debug_names"] = ("list", [member, other] + names)
     from . import walkx
     m[2]["types_global_values"] = ("list", [dict_inst("GLOBAL0", "TypeVoid", 77)])
     return ("struct", "Builder", {"module": m, "next_id": evalsum.FRESH0, "selected_function": NONE if sel_f is None else ("some", sel_f),
@@ -149,6 +165,7 @@ def arg_sets(f):
     params = [(p[0], p[1].replace(" ", "")) for p in f["sig"]["params"] if p[0] != "self"]
     idx = [(n, INDEX_CHOICES) for n, t in params if t == "Option<usize>"] + [(n, IP_CHOICES) for n, t in params if t.endswith("InsertPoint")]
     idx += [(n, [0, 1, 9]) for n, t in params if t == "usize"]
+    idx += [(n, [("str", "f0"), ("str", "f1"), ("str", "v"), ("str", "no-such-name")]) for n, t in params if t in ("&str", "&'_str", "&'astr")]
     names = [n for n, _ in idx]
     for variant in ("none", "some"):
         base = {n: evalsum.param_value(n, t, variant) for n, t in params}
